@@ -273,74 +273,92 @@ func checkResolveCase(c *resolveCase, srv *dohServer, setZone func(func(id int, 
 	}
 
 	want := c.Result
-	if want.Kind == "err" {
-		cl := resolveErrClass(rerr)
-		okc := cl == want.Class
-		for _, a := range c.ErrsOK { // when several needed lookups fail, any of their errors may be reported
-			okc = okc || cl == a
-		}
-		if !okc {
-			return fmt.Sprintf("spec says error %s %v, code returned %s (result %+v)", want.Class, c.ErrsOK, cl, got)
-		}
-	} else {
-		if rerr != nil {
-			return fmt.Sprintf("spec says success, code returned %v", rerr)
-		}
-		if int(got.Port) != want.Port {
-			return fmt.Sprintf("Port: spec %d, code %d", want.Port, got.Port)
-		}
-		// addresses
-		var gotAddr []string
-		for _, ip := range got.Address {
-			gotAddr = append(gotAddr, ipToken(ip))
-		}
-		wantAddr := append([]string{}, want.Address...)
-		switch c.Inp.Literal {
-		case "lit4":
-			wantAddr = []string{"192.0.2.7"}
-		case "lit6":
-			wantAddr = []string{"2001:db8::77"}
-		case "loopback":
-			wantAddr = []string{"127.0.0.1", "::1"}
-		}
-		// the order of the addresses is not part of the property
-		ga, wa := append([]string{}, gotAddr...), append([]string{}, wantAddr...)
-		sort.Strings(ga)
-		sort.Strings(wa)
-		if fmt.Sprint(ga) != fmt.Sprint(wa) {
-			return fmt.Sprintf("Address: spec %v, code %v", wantAddr, gotAddr)
-		}
-		// HTTPS records, in priority order
-		if len(got.HTTPS) != len(want.Https) {
-			return fmt.Sprintf("HTTPS: spec %+v, code %+v", want.Https, got.HTTPS)
-		}
-		for i, h := range got.HTTPS {
-			w := want.Https[i]
-			wt := ""
-			if w.Target != "" {
-				wt = nm.concrete(rName{Base: w.Target})
+	judge := func(got ech.ResolveResult, rerr error) string {
+		if want.Kind == "err" {
+			cl := resolveErrClass(rerr)
+			okc := cl == want.Class
+			for _, a := range c.ErrsOK { // when several needed lookups fail, any of their errors may be reported
+				okc = okc || cl == a
 			}
-			if int(h.Priority) != w.Prio || h.Target != wt || classifyECH(nilIfEmpty(h.ECH), "") != w.Ech {
-				return fmt.Sprintf("HTTPS[%d]: spec %+v, code prio=%d target=%q ech=%s", i, w, h.Priority, h.Target, classifyECH(nilIfEmpty(h.ECH), ""))
+			if !okc {
+				return fmt.Sprintf("spec says error %s %v, code returned %s (result %+v)", want.Class, c.ErrsOK, cl, got)
+			}
+		} else {
+			if rerr != nil {
+				return fmt.Sprintf("spec says success, code returned %v", rerr)
+			}
+			if int(got.Port) != want.Port {
+				return fmt.Sprintf("Port: spec %d, code %d", want.Port, got.Port)
+			}
+			// addresses
+			var gotAddr []string
+			for _, ip := range got.Address {
+				gotAddr = append(gotAddr, ipToken(ip))
+			}
+			wantAddr := append([]string{}, want.Address...)
+			switch c.Inp.Literal {
+			case "lit4":
+				wantAddr = []string{"192.0.2.7"}
+			case "lit6":
+				wantAddr = []string{"2001:db8::77"}
+			case "loopback":
+				wantAddr = []string{"127.0.0.1", "::1"}
+			}
+			// the order of the addresses is not part of the property
+			ga, wa := append([]string{}, gotAddr...), append([]string{}, wantAddr...)
+			sort.Strings(ga)
+			sort.Strings(wa)
+			if fmt.Sprint(ga) != fmt.Sprint(wa) {
+				return fmt.Sprintf("Address: spec %v, code %v", wantAddr, gotAddr)
+			}
+			// HTTPS records, in priority order
+			if len(got.HTTPS) != len(want.Https) {
+				return fmt.Sprintf("HTTPS: spec %+v, code %+v", want.Https, got.HTTPS)
+			}
+			for i, h := range got.HTTPS {
+				w := want.Https[i]
+				wt := ""
+				if w.Target != "" {
+					wt = nm.concrete(rName{Base: w.Target})
+				}
+				if int(h.Priority) != w.Prio || h.Target != wt || classifyECH(nilIfEmpty(h.ECH), "") != w.Ech {
+					return fmt.Sprintf("HTTPS[%d]: spec %+v, code prio=%d target=%q ech=%s", i, w, h.Priority, h.Target, classifyECH(nilIfEmpty(h.ECH), ""))
+				}
+			}
+			// additional
+			wantAddl := map[string][]string{}
+			for _, a := range want.Addl {
+				if len(a.Ips) > 0 {
+					wantAddl[nm.concrete(rName{Base: a.Name})] = a.Ips
+				}
+			}
+			gotAddl := map[string][]string{}
+			for k, v := range got.Additional {
+				for _, ip := range v {
+					gotAddl[k] = append(gotAddl[k], ipToken(ip))
+				}
+			}
+			if fmt.Sprint(sortedMap(gotAddl)) != fmt.Sprint(sortedMap(wantAddl)) {
+				return fmt.Sprintf("Additional: spec %v, code %v", wantAddl, gotAddl)
 			}
 		}
-		// additional
-		wantAddl := map[string][]string{}
-		for _, a := range want.Addl {
-			if len(a.Ips) > 0 {
-				wantAddl[nm.concrete(rName{Base: a.Name})] = a.Ips
-			}
+		return ""
+	}
+	if d := judge(got, rerr); d != "" {
+		return d
+	}
+	// the same lookup again, twice, through the same Resolver (its cache now holds whatever the first call left there):
+	// the DNS data has not changed, so the outcome - result or documented error - is the same every time
+	for k := 2; k <= 3; k++ {
+		g2, e2 := res.Resolve(ctx, arg)
+		if envError(e2) {
+			return "ENV: " + e2.Error()
 		}
-		gotAddl := map[string][]string{}
-		for k, v := range got.Additional {
-			for _, ip := range v {
-				gotAddl[k] = append(gotAddl[k], ipToken(ip))
-			}
-		}
-		if fmt.Sprint(sortedMap(gotAddl)) != fmt.Sprint(sortedMap(wantAddl)) {
-			return fmt.Sprintf("Additional: spec %v, code %v", wantAddl, gotAddl)
+		if d := judge(g2, e2); d != "" {
+			return fmt.Sprintf("call %d of the same lookup on the same Resolver: %s", k, d)
 		}
 	}
+	srv.takeQueries()
 	// the query log: requirements, not the exact sequence
 	allowed := map[string]bool{}
 	for _, b := range []string{"o", "t", "w1", "w2", "w3", "w4", "w5", "w6"} {
